@@ -258,6 +258,115 @@ func c20Dev(id string, seed int64, ncallers, rounds int) string {
 		updates.Load(), published.Load(), readers[0].conns.Load(), readers[1].conns.Load(), readers[0].acks.Load()+readers[1].acks.Load())
 }
 
+// ------------------------------------------------------------------ report bursts with a slow consumer
+//
+// pub <id> <seed> <bursts> <burstlen> <tags>: the reader sends bursts of ROAccessReports back to back; report r
+// carries <tags> TagReportData whose EPC-96 encodes (r, tag index). The consumer of the asynchronous-values
+// channel is slow: it takes an event, waits, and only then reads the CONTENT of the report (every tag of
+// every event), i.e. while later reports are being decoded and published. Besides the race reports this
+// produces under -race, each event's content is compared with what was sent.
+func c20Pub(id string, seed int64, bursts, burstLen, tags int) string {
+	asyncCh := make(chan *dsModels.AsyncValues, 256)
+	d := &Driver{lc: c20Logger{}, asyncCh: asyncCh, svc: c20SDK{},
+		activeDevices: make(map[string]*LLRPDevice), done: make(chan struct{}), config: &ServiceConfig{}}
+	ln, err := net.Listen("tcp4", "127.0.0.1:0")
+	if err != nil {
+		return "!listen"
+	}
+	defer ln.Close()
+	rd := &c20Reader{ln: ln, ready: make(chan struct{})}
+	go rd.serve()
+	name := "c20-" + id
+	if err := d.AddDevice(name, protocolMap{"tcp": {"host": "127.0.0.1", "port": strconv.Itoa(ln.Addr().(*net.TCPAddr).Port)}}, models.Unlocked); err != nil {
+		return "!adddevice " + err.Error()
+	}
+	select {
+	case <-rd.ready:
+	case <-time.After(5 * time.Second):
+		return "!notready"
+	}
+	total := bursts * burstLen
+	rnd := rand.New(rand.NewSource(seed))
+	crnd := rand.New(rand.NewSource(seed + 1)) // the consumer's own source
+	seen := map[uint32]int{}
+	corrupt, events := 0, 0
+	firstBad := ""
+	done := make(chan struct{})
+	go func() {
+		defer close(done)
+		idle := time.NewTimer(time.Second)
+		for events < total {
+			idle.Reset(time.Second)
+			select {
+			case av := <-asyncCh:
+				for _, cv := range av.CommandValues {
+					if cv.DeviceResourceName != ResourceROAccessReport {
+						continue
+					}
+					time.Sleep(time.Duration(100+crnd.Intn(600)) * time.Microsecond) // slow consumer
+					events++
+					rep, ok := cv.Value.(*llrp.ROAccessReport)
+					if !ok {
+						corrupt++
+						continue
+					}
+					bad := len(rep.TagReportData) != tags
+					var r0 uint32
+					for j := range rep.TagReportData {
+						epc := rep.TagReportData[j].EPC96.EPC
+						if len(epc) != 12 {
+							bad = true
+							continue
+						}
+						r, k := binary.BigEndian.Uint32(epc[0:4]), binary.BigEndian.Uint32(epc[4:8])
+						if j == 0 {
+							r0 = r
+						}
+						if r != r0 || int(k) != j {
+							bad = true
+						}
+					}
+					if bad {
+						corrupt++
+						if firstBad == "" {
+							firstBad = fmt.Sprintf("event#%d", events)
+						}
+					} else {
+						seen[r0]++
+					}
+				}
+			case <-idle.C:
+				return
+			}
+		}
+	}()
+	for b := 0; b < bursts; b++ {
+		for i := 0; i < burstLen; i++ {
+			r := uint32(b*burstLen + i + 1)
+			var payload []byte
+			for k := 0; k < tags; k++ {
+				tr := []byte{0x00, 0xF0, 0, 17, 0x8D, 0, 0, 0, 0, 0, 0, 0, 0, 0xC2, 0x0C, 0x20, 0x20}
+				binary.BigEndian.PutUint32(tr[5:9], r)
+				binary.BigEndian.PutUint32(tr[9:13], uint32(k))
+				payload = append(payload, tr...)
+			}
+			if err := rd.write(c20Frame(61, r, payload)); err != nil {
+				return "!write " + err.Error()
+			}
+		}
+		time.Sleep(time.Duration(500+rnd.Intn(1500)) * time.Microsecond)
+	}
+	<-done
+	dup := 0
+	for _, n := range seen {
+		if n > 1 {
+			dup += n - 1
+		}
+	}
+	_ = d.Stop(false)
+	return fmt.Sprintf("ok pub sent=%d events=%d intact=%d corrupt=%d duplicated=%d first_bad=%s", total, events, len(seen), corrupt, dup, firstBad)
+}
+
 func TestVerifC20(t *testing.T) {
 	lines, w, done := verifIO(t)
 	defer done()
@@ -286,6 +395,15 @@ func TestVerifC20(t *testing.T) {
 				out[i] = c15RunScript(f[1], f[2] == "1", f[3:])
 			case "c13":
 				out[i] = c13RunScenario(f[1:])
+			case "pub":
+				seed, _ := strconv.ParseInt(f[2], 10, 64)
+				nb, bl, tg := 6, 4, 5
+				if len(f) > 5 {
+					nb, _ = strconv.Atoi(f[3])
+					bl, _ = strconv.Atoi(f[4])
+					tg, _ = strconv.Atoi(f[5])
+				}
+				out[i] = c20Pub(f[1], seed, nb, bl, tg)
 			case "dev":
 				seed, _ := strconv.ParseInt(f[2], 10, 64)
 				nc, rounds := 3, 6
